@@ -236,6 +236,30 @@ where
     o
 }
 
+/// the same calls as `op_parse`, answered by a summary only (for inputs of megabytes)
+fn op_parsel<T>(s: &str) -> String
+where
+    T: FromStr + PurlShape + Clone + PartialEq,
+    <T as PurlShape>::Error: From<<T as FromStr>::Err> + ErrName,
+{
+    match GenericPurl::<T>::from_str(s) {
+        Err(e) => format!("p=ERR:{}", e.ename()),
+        Ok(p) => {
+            let s1 = p.to_string();
+            let r2 = GenericPurl::<T>::from_str(&s1);
+            let rb = p.clone().into_builder().build();
+            format!(
+                "p=OK len={} nq={} s_len={} p2eq={} rbeq={}",
+                s.len(),
+                p.qualifiers().len(),
+                s1.len(),
+                tf(matches!(&r2, Ok(p2) if p2 == &p)),
+                tf(matches!(&rb, Ok(q) if q == &p))
+            )
+        },
+    }
+}
+
 // ---------------------------------------------------------------- qualifier scripts
 
 const KNOWN_KEYS: [&str; 7] = [
@@ -1333,6 +1357,17 @@ fn dispatch(line: &str) -> Result<String, String> {
                 _ => "NA".to_string(),
             })
         },
+        "parsel" => {
+            let s = unh(arg(&t, 2)?)?;
+            Ok(match arg(&t, 1)? {
+                "S" => op_parsel::<String>(&s),
+                #[cfg(feature = "smartstring")]
+                "M" => op_parsel::<Small>(&s),
+                #[cfg(feature = "package-type")]
+                "P" => op_parsel::<PackageType>(&s),
+                _ => "NA".to_string(),
+            })
+        },
         "build" => {
             let (ty, name, script) = (arg(&t, 2)?, arg(&t, 3)?, arg(&t, 4)?);
             match arg(&t, 1)? {
@@ -1398,6 +1433,9 @@ fn run() {
             Err(_) => "PANIC".to_string(),
         };
         writeln!(out, "{}", ans).unwrap();
+        // one answer per request is on the wire before the next request starts: if a request aborts the
+        // process or never returns, the orchestrator knows which one it was
+        out.flush().unwrap();
     }
     out.flush().unwrap();
 }
